@@ -40,23 +40,25 @@ MANIFEST = {
             "lyd_merge of the instances of one (leaf-)list, destructive with ANY number of recycled red-black nodes (lyds_pool_add, "
             "lyds_insert2, lyds_additionally_reuse_rb_tree incl. the hand-over when the pool runs dry) or not, gives the stable sorted "
             "merge of both runs with tree = siblings and nothing lost (C04_lyd_merge_spec; the seeded change C14-6 is the regression "
-            "Example C04_lyd_merge_skip_refuted). TIED by T2: extracted model vs the static rb_* functions and vs the public API "
+            "Example C04_lyd_merge_skip_refuted). lyd_unlink_siblings (lyds_split: exact prefix / remainder, C04_lyds_split_spec) and "
+            "lyd_insert_child / lyd_insert_sibling of several nodes (lyds_merge with lyds_merge_nodes1/2/3, all cases: stable sorted "
+            "merge, C04_lyds_merge_spec; cefb23b regression Example C04_lyds_merge_nodes2_regression). TIED by T2: extracted model vs the static rb_* functions and vs the public API "
             "(lyd_new_term/lyd_new_list, lyd_insert_child/sibling, lyd_unlink_tree, lyd_free_tree, LYD_INSERT_NODE_LAST "
             "appends, lyd_find_sibling_val) on int8/string/decimal64/union leaf-lists and 1-/2-key lists, comparing after "
             "EVERY call the sibling order, the exact tree shape with colours, the metadata owner and a read-only invariant "
             "check; exhaustive scripts over 4 keys plus long random scripts. EXPLORED ONLY (oracle EditHistory, no proof): whole "
             "edit histories through create-by-path, dup, merge, diff apply, implicit nodes, validate; schema order between "
             "different nodes; user-ordered lists; the children hash table; every search function = scan. EXPLORED against list "
-            "models (oracles sorted-order, sibling-order of comps_sorted.py, no proof): lyds_split / lyds_merge (lyd_insert_sibling of "
-            "several nodes), duplication at top level, and ALL children of one parent (schema order, "
+            "models (oracles sorted-order, sibling-order of comps_sorted.py, no proof): lyd_merge of source lists with equal keys, and ALL children of one parent (schema order, "
             "user-ordered instances moved by lyd_insert_after / lyd_insert_before incl. wrap-around positions, opaque nodes last, "
             "lyd_find_sibling_first / _val / _opaq_next = scan, with and without children hash table).",
-    "note": "Not modelled in Coq: lyds_split, lyds_merge (4 cases; exercised by the sorted-order oracle against the abstract "
-            "sequence semantics with the white-box checker and ASan - this found the uninitialised *next_p of lyds_merge_nodes2, fixed "
-            "in /repo cefb23b), the pool's node recycling itself (rb_iter_traversal; the pool is a counter in the model) and the duplicate-"
-            "instance bookkeeping of lyd_merge_sibling_r (source instances with equal keys), rb_iter_traversal, parent-pointer "
-            "and metadata link-level details (checked by the driver's checker only), ChildIdx/Edit layers of DESIGN.md C04 "
-            "(slice ht covers the hash table itself). The known finding implicit-toplevel-order belongs to the explored part.",
+    "note": "Not modelled in Coq: the pool's node recycling itself (rb_iter_traversal; the pool is a counter in the model), the duplicate-"
+            "instance bookkeeping of lyd_merge_sibling_r (source instances with equal keys; Python model only), parent-pointer and "
+            "metadata link-level details (checked by the driver's checker only), the children of one parent beyond one (leaf-)list "
+            "(schema order, user-ordered moves, opaque nodes: Python list model SibModel only), ChildIdx/Edit layers of DESIGN.md C04 "
+            "(slice ht covers the hash table itself). lyds_merge_nodes2 needs a sorted target (model: None otherwise). The known "
+            "finding implicit-toplevel-order belongs to the explored part. Findings of the slice, all fixed in /repo: cefb23b "
+            "(uninitialised *next_p in lyds_merge_nodes2), d989bef + 03a093d (lyd_dup into existing instances).",
     "technique": "Coq proof over hand-written model (ordering kernel) + differential correspondence incl. exact tree shape "
                  "(extracted OCaml vs C, white-box and public API) + randomised edit histories with invariant checker (rest)",
 }
